@@ -114,12 +114,15 @@ func init() {
 	})
 	reg("reflect.ValueOf", func(fr *frame, args []value) value {
 		it := args[0].(iface)
-		return structure{rvalue{it}, nil, uintptr(0)}
+		return structure{rvalue{it: it}, nil, uintptr(0)}
 	})
 	reg("(reflect.Value).IsNil", func(fr *frame, args []value) value {
 		rv := args[0].(structure)[0].(rvalue)
 		switch rv.it.t.Underlying().(type) {
-		case *types.Pointer, *types.Map, *types.Slice, *types.Signature, *types.Interface, *types.Chan:
+		case *types.Interface:
+			inner, _ := rv.it.v.(iface)
+			return inner.t == nil
+		case *types.Pointer, *types.Map, *types.Slice, *types.Signature, *types.Chan:
 			return isNilValue(rv.it.v)
 		case *types.Basic:
 			if k, _ := basicKind(rv.it.t); k == types.UnsafePointer {
@@ -158,14 +161,13 @@ func init() {
 		}
 		panic(unsupported{"reflect.Value.Len of " + rv.it.t.String()})
 	})
-	reg("(reflect.Value).Interface", func(fr *frame, args []value) value {
-		rv := args[0].(structure)[0].(rvalue)
-		return rv.it
-	})
 }
 
 // rvalue is the payload of a modelled reflect.Value.
-type rvalue struct{ it iface }
+type rvalue struct {
+	it   iface
+	addr *value // the cell, when the value is addressable
+}
 
 var rtypeIface = types.NewNamed(types.NewTypeName(0, nil, "gosym.rtype", nil), types.NewStruct(nil, nil), nil)
 
@@ -232,6 +234,9 @@ func reflectKind(t types.Type) int {
 
 func rtypeCall(i *Interp, name string, args []value) value {
 	rt := args[0].(rtype)
+	if v, ok := rtypeCallMore(i, name, rt, args); ok {
+		return v
+	}
 	switch name {
 	case "String":
 		return types.TypeString(rt.t, func(p *types.Package) string { return p.Name() })
